@@ -99,7 +99,8 @@ static uint256 sha256d(const unsigned char* p, size_t n)
 // coin serialisation hashed into MuHash (kernel/coinstats.cpp TxOutSer): outpoint | u32(height*2+coinbase) | value | script
 static Bytes coin_ser(const COutPoint& op, const ck::RefCoin& c)
 {
-    Bytes b(op.hash.begin(), op.hash.end());
+    const uint256 th = op.hash.ToUint256();
+    Bytes b(th.begin(), th.end());
     auto le = [&](uint64_t v, int n) { for (int i = 0; i < n; i++) b.push_back(v >> (8 * i) & 0xff); };
     le(op.n, 4);
     le((uint32_t)(c.height * 2 + (c.coinbase ? 1 : 0)), 4);
@@ -393,9 +394,9 @@ struct Sim {
                 cmp("bogosize", st->nBogoSize, rs.bogo);
                 cmp("total_amount", st->total_amount ? *st->total_amount : -1, rs.amount);
                 cmp("total_subsidy", st->total_subsidy, rs.subsidy);
-                cmp("prevout_spent", st->total_prevout_spent_amount, rs.prevout_spent);
-                cmp("new_outputs_ex_coinbase", st->total_new_outputs_ex_coinbase_amount, rs.new_outputs);
-                cmp("coinbase_amount", st->total_coinbase_amount, rs.coinbase);
+                cmp("prevout_spent", (int64_t)st->total_prevout_spent_amount.GetLow64(), rs.prevout_spent);
+                cmp("new_outputs_ex_coinbase", (int64_t)st->total_new_outputs_ex_coinbase_amount.GetLow64(), rs.new_outputs);
+                cmp("coinbase_amount", (int64_t)st->total_coinbase_amount.GetLow64(), rs.coinbase);
                 cmp("unspendables_genesis", st->total_unspendables_genesis_block, rs.u_genesis);
                 cmp("unspendables_bip30", st->total_unspendables_bip30, 0);
                 cmp("unspendables_scripts", st->total_unspendables_scripts, rs.u_scripts);
@@ -459,7 +460,7 @@ struct Sim {
             std::optional<kernel::CCoinsStats> fs;
             {
                 LOCK(cs_main);
-                fs = kernel::ComputeUTXOStats(kernel::CoinStatsHashType::MUHASH, &n.cs().CoinsDB(), n.chainman().m_blockman);
+                fs = kernel::ComputeUTXOStats(kernel::CoinStatsHashType::MUHASH, n.cs().CoinsDB(), n.chainman().m_blockman);
             }
             auto st = csi->LookUpStats(*tip);
             out.evals++;
@@ -488,6 +489,10 @@ static void worker_main(int rfd, int wfd)
 {
     FILE* in = fdopen(rfd, "r");
     FILE* outf = fdopen(wfd, "w");
+    // private temp root: the fixture's temp-path generator was seeded before the fork, so siblings would collide
+    const std::string mytmp = vx::scratch_dir() + "/c21-" + std::to_string(getpid());
+    mkdir(mytmp.c_str(), 0755);
+    setenv("TMPDIR", mytmp.c_str(), 1);
     char line[4096];
     while (fgets(line, sizeof line, in)) {
         std::string h(line);
@@ -503,6 +508,7 @@ static void worker_main(int rfd, int wfd)
         fflush(outf);
     }
     fflush(outf);
+    { std::error_code ec; std::filesystem::remove_all(mytmp, ec); }
     _exit(0);
 }
 
@@ -586,7 +592,6 @@ int main(int argc, char** argv)
         std::ifstream f(vx::ctx().replay);
         std::string l, h;
         while (std::getline(f, l)) if (l.rfind("history ", 0) == 0) h = l.substr(8);
-        LogInstance().DisableLogging();
         Out o;
         std::string r = run_job(h, o);
         printf("replay history [%s]\nkey %s\n", h.c_str(), r.c_str());
@@ -605,7 +610,6 @@ int main(int argc, char** argv)
         if (p == 0) {
             close(a[1]); close(b[0]);
             for (auto& o : ws) { if (&o == &w) break; close(o.to); close(o.from); }
-            LogInstance().DisableLogging();
             worker_main(a[0], b[1]);
         }
         close(a[0]); close(b[1]);
@@ -689,6 +693,7 @@ int main(int argc, char** argv)
         std::vector<std::pair<std::string, std::string>> res;
         ok = run_level({"", "a1tbfs", "a1tbfs"}, res);
         if (ok && res[1].first != res[2].first) { printf("HARNESS-ERROR replay is not deterministic:\n %s\n %s\n", res[1].first.c_str(), res[2].first.c_str()); ok = false; }
+        if (ok && (res[0].first == "DIED" || res[0].first == "EXC")) { printf("HARNESS-ERROR root state could not be built\n"); ok = false; }
         if (ok) { seen.insert(res[0].first); states = 1; frontier.push_back({"", res[0].second}); }
     }
     for (int depth = 1; ok && depth <= max_depth && nviol <= 20; depth++) {
